@@ -2413,10 +2413,6 @@ def BHJM_cylinder_segment(
     # WARNING @alex
     #   1. inside and not_on_surface are not the same! Cant just put to true.
 
-    # return 0 when all points are on surface
-    if not np.any(mask_not_on_surf):
-        return BHJM * 0
-
     if field == "J":
         BHJM[~mask_inside] = 0
         return BHJM
@@ -2424,6 +2420,10 @@ def BHJM_cylinder_segment(
     if field == "M":
         BHJM[~mask_inside] = 0
         return BHJM / MU0
+
+    # return 0 when all points are on surface
+    if not np.any(mask_not_on_surf):
+        return BHJM * 0
 
     BHJM *= 0
 
